@@ -1,42 +1,18 @@
-//! scratch experiments (tier=pilot: never part of a registered check)
+//! Experiments that located what exhausts the solver on the composed resume kernels
+//! (tier=pilot: never part of a registered check; results in DESIGN §13.8):
+//!   p3  real FASTA resume call, line-end vector concretely empty            -> 23 s
+//!   p4  same, vector filled by pushes under a symbolic condition             -> > 14 GB (killed)
+//!   p6  same, vector filled by a fixed number of pushes + one set_len        -> 47 s
+//!   p14 as p6 plus reading the entries back (ends_match)                     -> > 11 GB (killed)
+//!       => the number of pre-recorded line ends is a constant per registered instance (K)
+//!   q5-q7 FASTQ: make_room, fill_buf, search_incomplete, check_end through the hooks -> 40-190 s,
+//!       while the real fastq `resume_incomplete_search` exhausts 20-44 GB
 use crate::fak::*;
 use crate::fqk::{any_file, window};
 use crate::nd::Nd;
 use crate::spec::*;
 use crate::src::*;
 use seq_io::fasta;
-
-/// P2: make_room, fill_buf, search called one after the other through the hooks
-pub fn p2<N: Nd>(nd: &mut N) {
-    const F: usize = 6;
-    const CAP: usize = 3;
-    let (h, n, c1) = (2usize, 6usize, 1usize);
-    let file: [u8; F] = any_file::<N, F>(nd);
-    nd.assume(file[h] == b'>');
-    let f = &file[..n];
-    let exp = fa_record(f, h);
-    nd.assume(!exp.overflow);
-    let st = FaState { start: h, search_pos: if f[CAP - 1] == LF { CAP - 1 } else { CAP }, line: 1, byte: h as u64, state: 2 };
-    let mut src = Src::<F>::plain(file, n);
-    src.chunk[1] = c1;
-    let br = window::<F>(src, CAP, 0);
-    let mut r = fa_reader(br, &st, Vec::with_capacity(8));
-    r.verif_make_room();
-    let x = seq_io::verif_fill_buf(r.verif_buf_reader_mut());
-    std::mem::forget(x);
-    let res = r.verif_search();
-    if let Ok(found) = res {
-        let needed = if exp.complete { exp.next - h + 1 } else { n - h + 1 };
-        if needed <= CAP {
-            vassert!(found, "X00 found");
-            let sp = r.verif_seq_pos();
-            vassert!(sp.len() == exp.nends, "X00 number of ends");
-        }
-    }
-    cover!(true, "reached");
-    std::mem::forget(res);
-    std::mem::forget(r);
-}
 
 /// P3: the resume call itself, line-end vector concretely empty
 pub fn p3<N: Nd>(nd: &mut N) {
@@ -196,545 +172,9 @@ pub fn p14<N: Nd>(nd: &mut N) {
     std::mem::forget(r);
 }
 
-/// p15: the resume call itself, line-end vector concretely empty
-pub fn p15<N: Nd>(nd: &mut N) {
-    use crate::c09::RecPolicy;
-    const F: usize = 6;
-    const CAP: usize = 3;
-    let (h, n, c1) = (2usize, 6usize, 1usize);
-    let file: [u8; F] = any_file::<N, F>(nd);
-    nd.assume(file[h] == b'>');
-    let f = &file[..n];
-    let exp = fa_record(f, h);
-    nd.assume(!exp.overflow);
-    let st = FaState { start: h, search_pos: if f[CAP - 1] == LF { CAP - 1 } else { CAP }, line: 1, byte: h as u64, state: 2 };
-    let mut src = Src::<F>::plain(file, n);
-    src.chunk[1] = c1;
-    let br = window::<F>(src, CAP, 0);
-    let pol = RecPolicy { answer: None, asked: 0, n: 0 };
-    let mut v = Vec::with_capacity(8);
-    let mut i = 0;
-    let mut k = 0;
-    while i < FA_MAXL {
-        if i < CAP {
-            v.push(exp.ends[i]);
-        }
-        if i < exp.nends && exp.ends[i] < CAP - 1 {
-            k += 1;
-        }
-        i += 1;
-    }
-    unsafe { v.set_len(k) };
-    let mut r = fasta::Reader::verif_from_parts(br, pol, st.start, v, st.line, st.byte, st.search_pos, st.state);
-    let res = r.verif_resume_incomplete_search(true);
-    if let Ok(found) = res {
-        let needed = if exp.complete { exp.next - h + 1 } else { n - h + 1 };
-        if needed <= CAP {
-            vassert!(found, "X00 found");
-            let sp = r.verif_seq_pos();
-            vassert!(sp.len() == exp.nends, "X00 number of ends");
-            let b = r.verif_buf_reader().buffer();
-            let mut ok = true;
-            let mut j = 0;
-            while j < CAP {
-                if j < b.len() && b[j] != file[h + j] {
-                    ok = false;
-                }
-                j += 1;
-            }
-            vassert!(ok, "X00 buffer");
-        }
-    }
-    cover!(true, "reached");
-    std::mem::forget(res);
-    std::mem::forget(r);
-}
-
-/// p10: the resume call itself, line-end vector concretely empty
-pub fn p10<N: Nd>(nd: &mut N) {
-    use crate::c09::RecPolicy;
-    const F: usize = 6;
-    const CAP: usize = 3;
-    let (h, n, c1) = (2usize, 6usize, 1usize);
-    let file: [u8; F] = any_file::<N, F>(nd);
-    nd.assume(file[h] == b'>');
-    let f = &file[..n];
-    let exp = fa_record(f, h);
-    nd.assume(!exp.overflow);
-    let st = FaState { start: h, search_pos: if f[CAP - 1] == LF { CAP - 1 } else { CAP }, line: 1, byte: h as u64, state: 2 };
-    let mut src = Src::<F>::plain(file, n);
-    src.chunk[1] = c1;
-    let br = window::<F>(src, CAP, 0);
-    let pol = RecPolicy { answer: None, asked: 0, n: 0 };
-    let mut v = Vec::with_capacity(8);
-    let mut i = 0;
-    let mut k = 0;
-    while i < FA_MAXL {
-        if i < CAP {
-            v.push(exp.ends[i]);
-        }
-        if i < exp.nends && exp.ends[i] < CAP - 1 {
-            k += 1;
-        }
-        i += 1;
-    }
-    unsafe { v.set_len(k) };
-    let mut r = fasta::Reader::verif_from_parts(br, pol, st.start, v, st.line, st.byte, st.search_pos, st.state);
-    let res = r.verif_resume_incomplete_search(true);
-    if let Ok(found) = res {
-        let needed = if exp.complete { exp.next - h + 1 } else { n - h + 1 };
-        if needed <= CAP {
-            vassert!(found, "X00 found");
-            let sp = r.verif_seq_pos();
-            vassert!(sp.len() == exp.nends && ends_match_pub(sp, &exp, h, exp.nends), "X00 ends");
-            let b = r.verif_buf_reader().buffer();
-            let mut ok = true;
-            let mut j = 0;
-            while j < CAP {
-                if j < b.len() && b[j] != file[h + j] {
-                    ok = false;
-                }
-                j += 1;
-            }
-            vassert!(ok, "X00 buffer");
-        }
-    }
-    cover!(true, "reached");
-    std::mem::forget(res);
-    std::mem::forget(r);
-}
-
-/// p11: the resume call itself, line-end vector concretely empty
-pub fn p11<N: Nd>(nd: &mut N) {
-    use crate::c09::RecPolicy;
-    const F: usize = 6;
-    const CAP: usize = 3;
-    let (h, n, c1) = (2usize, 6usize, 1usize);
-    let file: [u8; F] = any_file::<N, F>(nd);
-    nd.assume(file[h] == b'>');
-    let f = &file[..n];
-    let exp = fa_record(f, h);
-    nd.assume(!exp.overflow);
-    let st = FaState { start: h, search_pos: if f[CAP - 1] == LF { CAP - 1 } else { CAP }, line: 1, byte: h as u64, state: 2 };
-    let mut src = Src::<F>::plain(file, n);
-    src.chunk[1] = c1;
-    let br = window::<F>(src, CAP, 0);
-    let pol = RecPolicy { answer: None, asked: 0, n: 0 };
-    let mut v = Vec::with_capacity(8);
-    let mut i = 0;
-    let mut k = 0;
-    while i < FA_MAXL {
-        if i < CAP {
-            v.push(exp.ends[i]);
-        }
-        if i < exp.nends && exp.ends[i] < CAP - 1 {
-            k += 1;
-        }
-        i += 1;
-    }
-    unsafe { v.set_len(k) };
-    let mut r = fasta::Reader::verif_from_parts(br, pol, st.start, v, st.line, st.byte, st.search_pos, st.state);
-    let res = r.verif_resume_incomplete_search(true);
-    if let Ok(found) = res {
-        let needed = if exp.complete { exp.next - h + 1 } else { n - h + 1 };
-        if needed <= CAP {
-            vassert!(found, "X00 found");
-            let sp = r.verif_seq_pos();
-            vassert!(sp.len() == exp.nends, "X00 number of ends");
-            vassert!(r.policy().n == 0, "X00 policy");
-            vassert!(r.verif_buf_reader().capacity() == CAP, "X00 cap");
-            vassert!(r.verif_start() == 0, "X00 start");
-        }
-    }
-    cover!(true, "reached");
-    std::mem::forget(res);
-    std::mem::forget(r);
-}
-
-/// p12: the resume call itself, line-end vector concretely empty
-pub fn p12<N: Nd>(nd: &mut N) {
-    use crate::c09::RecPolicy;
-    const F: usize = 6;
-    const CAP: usize = 3;
-    let (h, n, c1) = (2usize, 6usize, 1usize);
-    let file: [u8; F] = any_file::<N, F>(nd);
-    nd.assume(file[h] == b'>');
-    let f = &file[..n];
-    let exp = fa_record(f, h);
-    nd.assume(!exp.overflow);
-    let st = FaState { start: h, search_pos: if f[CAP - 1] == LF { CAP - 1 } else { CAP }, line: 1, byte: h as u64, state: 2 };
-    let mut src = Src::<F>::plain(file, n);
-    src.chunk[1] = c1;
-    let br = window::<F>(src, CAP, 0);
-    let pol = RecPolicy { answer: None, asked: 0, n: 0 };
-    let mut v = Vec::with_capacity(8);
-    let mut i = 0;
-    let mut k = 0;
-    while i < FA_MAXL {
-        if i < CAP {
-            v.push(exp.ends[i]);
-        }
-        if i < exp.nends && exp.ends[i] < CAP - 1 {
-            k += 1;
-        }
-        i += 1;
-    }
-    unsafe { v.set_len(k) };
-    let mut r = fasta::Reader::verif_from_parts(br, pol, st.start, v, st.line, st.byte, st.search_pos, st.state);
-    let res = r.verif_resume_incomplete_search(true);
-    if let Ok(found) = res {
-        let needed = if exp.complete { exp.next - h + 1 } else { n - h + 1 };
-        if needed <= CAP {
-            vassert!(found, "X00 found");
-            let sp = r.verif_seq_pos();
-            vassert!(sp.len() == exp.nends, "X00 number of ends");
-            if exp.complete {
-                vassert!(r.verif_search_pos() + h == exp.next, "X00 next");
-                vassert!(r.verif_state() != 4, "X00 not finished");
-            } else {
-                vassert!(r.verif_state() == 4, "X00 finished");
-            }
-        }
-    }
-    cover!(true, "reached");
-    std::mem::forget(res);
-    std::mem::forget(r);
-}
-
-/// p13: the resume call itself, line-end vector concretely empty
-pub fn p13<N: Nd>(nd: &mut N) {
-    use crate::c09::RecPolicy;
-    const F: usize = 6;
-    const CAP: usize = 3;
-    let (h, n, c1) = (2usize, 6usize, 1usize);
-    let file: [u8; F] = any_file::<N, F>(nd);
-    nd.assume(file[h] == b'>');
-    let f = &file[..n];
-    let exp = fa_record(f, h);
-    nd.assume(!exp.overflow);
-    let st = FaState { start: h, search_pos: if f[CAP - 1] == LF { CAP - 1 } else { CAP }, line: 1, byte: h as u64, state: 2 };
-    let mut src = Src::<F>::plain(file, n);
-    src.chunk[1] = c1;
-    let br = window::<F>(src, CAP, 0);
-    let pol = RecPolicy { answer: None, asked: 0, n: 0 };
-    let mut v = Vec::with_capacity(8);
-    let mut i = 0;
-    let mut k = 0;
-    while i < FA_MAXL {
-        if i < CAP {
-            v.push(exp.ends[i]);
-        }
-        if i < exp.nends && exp.ends[i] < CAP - 1 {
-            k += 1;
-        }
-        i += 1;
-    }
-    unsafe { v.set_len(k) };
-    let mut r = fasta::Reader::verif_from_parts(br, pol, st.start, v, st.line, st.byte, st.search_pos, st.state);
-    let res = r.verif_resume_incomplete_search(true);
-    if let Ok(found) = res {
-        let needed = if exp.complete { exp.next - h + 1 } else { n - h + 1 };
-        if needed <= CAP {
-            vassert!(found, "X00 found");
-            let sp = r.verif_seq_pos();
-            vassert!(sp.len() == exp.nends, "X00 number of ends");
-            let b = r.verif_buf_reader().buffer();
-            let want = if n - h < CAP { n - h } else { CAP };
-            vassert!(b.len() == want, "X00 len");
-        }
-    }
-    cover!(true, "reached");
-    std::mem::forget(res);
-    std::mem::forget(r);
-}
-
-/// P7 (ends_before): the resume call itself, line-end vector concretely empty
-pub fn p7<N: Nd>(nd: &mut N) {
-    use crate::c09::RecPolicy;
-    const F: usize = 6;
-    const CAP: usize = 3;
-    let (h, n, c1) = (2usize, 6usize, 1usize);
-    let file: [u8; F] = any_file::<N, F>(nd);
-    nd.assume(file[h] == b'>');
-    let f = &file[..n];
-    let exp = fa_record(f, h);
-    nd.assume(!exp.overflow);
-    let st = FaState { start: h, search_pos: if f[CAP - 1] == LF { CAP - 1 } else { CAP }, line: 1, byte: h as u64, state: 2 };
-    let mut src = Src::<F>::plain(file, n);
-    src.chunk[1] = c1;
-    let br = window::<F>(src, CAP, 0);
-    let pol = RecPolicy { answer: None, asked: 0, n: 0 };
-    let v = ends_before(&exp, CAP - 1);
-    let mut r = fasta::Reader::verif_from_parts(br, pol, st.start, v, st.line, st.byte, st.search_pos, st.state);
-    let res = r.verif_resume_incomplete_search(true);
-    if let Ok(found) = res {
-        let needed = if exp.complete { exp.next - h + 1 } else { n - h + 1 };
-        if needed <= CAP {
-            vassert!(found, "X00 found");
-            let sp = r.verif_seq_pos();
-            vassert!(sp.len() == exp.nends, "X00 number of ends");
-        }
-    }
-    cover!(true, "reached");
-    std::mem::forget(res);
-    std::mem::forget(r);
-}
-
-/// P8 (Err branch): the resume call itself, line-end vector concretely empty
-pub fn p8<N: Nd>(nd: &mut N) {
-    use crate::c09::RecPolicy;
-    const F: usize = 6;
-    const CAP: usize = 3;
-    let (h, n, c1) = (2usize, 6usize, 1usize);
-    let file: [u8; F] = any_file::<N, F>(nd);
-    nd.assume(file[h] == b'>');
-    let f = &file[..n];
-    let exp = fa_record(f, h);
-    nd.assume(!exp.overflow);
-    let st = FaState { start: h, search_pos: if f[CAP - 1] == LF { CAP - 1 } else { CAP }, line: 1, byte: h as u64, state: 2 };
-    let mut src = Src::<F>::plain(file, n);
-    src.chunk[1] = c1;
-    let br = window::<F>(src, CAP, 0);
-    let pol = RecPolicy { answer: None, asked: 0, n: 0 };
-    let mut v = Vec::with_capacity(8);
-    let mut i = 0;
-    let mut k = 0;
-    while i < FA_MAXL {
-        if i < CAP {
-            v.push(exp.ends[i]);
-        }
-        if i < exp.nends && exp.ends[i] < CAP - 1 {
-            k += 1;
-        }
-        i += 1;
-    }
-    unsafe { v.set_len(k) };
-    let mut r = fasta::Reader::verif_from_parts(br, pol, st.start, v, st.line, st.byte, st.search_pos, st.state);
-    let res = r.verif_resume_incomplete_search(true);
-    if let Ok(found) = res {
-        let needed = if exp.complete { exp.next - h + 1 } else { n - h + 1 };
-        if needed <= CAP {
-            vassert!(found, "X00 found");
-            let sp = r.verif_seq_pos();
-            vassert!(sp.len() == exp.nends, "X00 number of ends");
-        }
-    }
-    cover!(true, "reached");
-    if let Err(e) = &res {
-        vassert!(matches!(e, fasta::Error::BufferLimit), "X00 only the refused growth is reported");
-        vassert!(r.verif_state() == 4, "X00 terminal");
-    }
-    std::mem::forget(res);
-    std::mem::forget(r);
-}
-
-/// P9 (state + buffer assertions): the resume call itself, line-end vector concretely empty
-pub fn p9<N: Nd>(nd: &mut N) {
-    use crate::c09::RecPolicy;
-    const F: usize = 6;
-    const CAP: usize = 3;
-    let (h, n, c1) = (2usize, 6usize, 1usize);
-    let file: [u8; F] = any_file::<N, F>(nd);
-    nd.assume(file[h] == b'>');
-    let f = &file[..n];
-    let exp = fa_record(f, h);
-    nd.assume(!exp.overflow);
-    let st = FaState { start: h, search_pos: if f[CAP - 1] == LF { CAP - 1 } else { CAP }, line: 1, byte: h as u64, state: 2 };
-    let mut src = Src::<F>::plain(file, n);
-    src.chunk[1] = c1;
-    let br = window::<F>(src, CAP, 0);
-    let pol = RecPolicy { answer: None, asked: 0, n: 0 };
-    let mut v = Vec::with_capacity(8);
-    let mut i = 0;
-    let mut k = 0;
-    while i < FA_MAXL {
-        if i < CAP {
-            v.push(exp.ends[i]);
-        }
-        if i < exp.nends && exp.ends[i] < CAP - 1 {
-            k += 1;
-        }
-        i += 1;
-    }
-    unsafe { v.set_len(k) };
-    let mut r = fasta::Reader::verif_from_parts(br, pol, st.start, v, st.line, st.byte, st.search_pos, st.state);
-    let res = r.verif_resume_incomplete_search(true);
-    if let Ok(found) = res {
-        let needed = if exp.complete { exp.next - h + 1 } else { n - h + 1 };
-        if needed <= CAP {
-            vassert!(found, "X00 found");
-            let sp = r.verif_seq_pos();
-            vassert!(sp.len() == exp.nends && ends_match_pub(sp, &exp, h, exp.nends), "X00 ends");
-            vassert!(r.policy().n == 0, "X00 policy");
-            vassert!(r.verif_buf_reader().capacity() == CAP, "X00 cap");
-            vassert!(r.verif_start() == 0, "X00 start");
-            if exp.complete {
-                vassert!(r.verif_search_pos() + h == exp.next, "X00 next");
-                vassert!(r.verif_state() != 4, "X00 not finished");
-            } else {
-                vassert!(r.verif_state() == 4, "X00 finished");
-            }
-            let b = r.verif_buf_reader().buffer();
-            let want = if n - h < CAP { n - h } else { CAP };
-            vassert!(b.len() == want, "X00 len");
-            let mut ok = true;
-            let mut j = 0;
-            while j < CAP {
-                if j < b.len() && b[j] != file[h + j] {
-                    ok = false;
-                }
-                j += 1;
-            }
-            vassert!(ok, "X00 buffer");
-        }
-    }
-    cover!(true, "reached");
-    std::mem::forget(res);
-    std::mem::forget(r);
-}
-
-/// P5 (full assertions): the resume call itself, line-end vector concretely empty
-pub fn p5<N: Nd>(nd: &mut N) {
-    use crate::c09::RecPolicy;
-    const F: usize = 6;
-    const CAP: usize = 3;
-    let (h, n, c1) = (2usize, 6usize, 1usize);
-    let file: [u8; F] = any_file::<N, F>(nd);
-    nd.assume(file[h] == b'>');
-    let f = &file[..n];
-    let exp = fa_record(f, h);
-    nd.assume(!exp.overflow);
-    let st = FaState { start: h, search_pos: if f[CAP - 1] == LF { CAP - 1 } else { CAP }, line: 1, byte: h as u64, state: 2 };
-    let mut src = Src::<F>::plain(file, n);
-    src.chunk[1] = c1;
-    let br = window::<F>(src, CAP, 0);
-    let pol = RecPolicy { answer: None, asked: 0, n: 0 };
-    let mut r = fasta::Reader::verif_from_parts(br, pol, st.start, Vec::with_capacity(8), st.line, st.byte, st.search_pos, st.state);
-    let res = r.verif_resume_incomplete_search(true);
-    if let Ok(found) = res {
-        let needed = if exp.complete { exp.next - h + 1 } else { n - h + 1 };
-        if needed <= CAP {
-            vassert!(found, "X00 found");
-            let sp = r.verif_seq_pos();
-            vassert!(sp.len() == exp.nends && ends_match_pub(sp, &exp, h, exp.nends), "X00 ends");
-            let b = r.verif_buf_reader().buffer();
-            let mut ok = true;
-            let mut j = 0;
-            while j < CAP {
-                if j < b.len() && b[j] != file[h + j] {
-                    ok = false;
-                }
-                j += 1;
-            }
-            vassert!(ok, "X00 buffer");
-        }
-    }
-    cover!(true, "reached");
-    std::mem::forget(res);
-    std::mem::forget(r);
-}
-
 
 use crate::fqk::*;
 use seq_io::fastq;
-fn q_resume_at<N: Nd, const F: usize, const CAP: usize, const MODE: usize>(nd: &mut N, file: &[u8; F], make_room: bool, p: usize, n: usize, c1: usize, grow: bool) {
-    use crate::c09::RecPolicy;
-    let f = &file[..n];
-    let g = fq_group(f, p);
-    let v = fq_verdict_g(f, p, &g);
-    let lfs_in = count_lf(f, p, CAP);
-    // the group is not complete inside the first window (that is why the search is resumed)
-    nd.assume(lfs_in < 4);
-    let st = FqState {
-        pos0: p,
-        pos1: 0,
-        seq: if lfs_in >= 1 { g.starts[1] } else { 0 },
-        sep: if lfs_in >= 2 { g.starts[2] } else { 0 },
-        qual: if lfs_in >= 3 { g.starts[3] } else { 0 },
-        inc: 0,
-        line: 1,
-        byte: p as u64,
-        state: 1,
-    };
-    let mut src = Src::<F>::plain(*file, n);
-    src.chunk[1] = c1;
-    let br = window::<F>(src, CAP, 0);
-    let pol = RecPolicy { answer: if grow { Some(2 * CAP) } else { None }, asked: 0, n: 0 };
-    let mut r = fastq::Reader::verif_from_parts(br, pol, fastq::VerifBufPos::new(st.pos0, st.pos1, st.seq, st.sep, st.qual), st.inc, st.line, st.byte, st.state);
-    let res = r.verif_resume_incomplete_search((lfs_in + 1) as u8, make_room);
-    let newcap = if grow { 2 * CAP } else { CAP };
-    // the window after compaction / growth and a complete refill
-    let wend = if p + newcap < n { p + newcap } else { n };
-    let complete_in = g.lfs == 4 && g.ends[3] < wend;
-    let eof_seen = n - p < newcap;
-    let failed = match &res {
-        Ok(true) => !(complete_in || eof_seen) || !v.record,
-        Ok(false) => !(v.end && eof_seen && !complete_in),
-        Err(_) => false,
-    };
-    if failed {
-        nd.note_num("record_start", p as u64);
-        nd.note_num("n", n as u64);
-        nd.note_num("first_chunk", c1 as u64);
-    }
-    match res {
-        Ok(true) => {
-            vassert!(complete_in || eof_seen, "C02 a record is returned only when its four lines are in the buffer or the input ended");
-            if MODE & 1 != 0 {
-                let rec = r.verif_current_record();
-                check_record(&rec, f, &g, &v);
-            }
-            if MODE & 2 != 0 {
-                let b = r.verif_buf_reader().buffer();
-                vassert!(b.len() == wend - p, "C03 the refill reads until the buffer is full or the input ends");
-            }
-            vassert!(r.verif_buf_reader().capacity() == newcap, "C09 the capacity is the one the policy granted");
-            if g.lfs < 4 {
-                vassert!(r.verif_state() == 3, "C20 after the last record (no terminator) the reader is finished");
-            }
-            cover!(g.lfs == 4 && c1 == 1, "record completed by a refill in several reads");
-            cover!(g.lfs == 3, "last record without terminator after a refill");
-        }
-        Ok(false) => {
-            vassert!(!complete_in, "C02 a complete group in the buffer is not skipped");
-            vassert!(eof_seen, "C02 the end of the input is only reported once the source is exhausted");
-            vassert!(v.end, "C02 end of input only when no further group (or a blank tail) remains");
-            vassert!(r.verif_state() == 3, "C20 once the end of input was reported the reader is finished");
-            cover!(true, "blank tail after a refill");
-        }
-        Err(fastq::Error::BufferLimit) => {
-            vassert!(!grow, "C09 no buffer-limit error while the policy grants growth");
-            vassert!(!complete_in && !eof_seen, "C02 no buffer-limit error when the group fits after compaction or the input ended");
-            vassert!(r.verif_state() == 3, "C14 a refused growth is terminal");
-            cover!(true, "growth refused");
-        }
-        Err(e) => {
-            vassert!(complete_in || eof_seen, "C02 a format error is reported only for a group that is completely visible");
-            if MODE & 4 != 0 {
-                check_error(&e, f, p, 1, &g, &v);
-            }
-            vassert!(r.verif_state() == 3, "C02 a format error is terminal");
-            std::mem::forget(e);
-        }
-    }
-    std::mem::forget(r);
-}
-
-
-pub fn q_compact<N: Nd, const MODE: usize>(nd: &mut N) {
-    const F: usize = 7;
-    const CAP: usize = 4;
-    let file: [u8; F] = any_file::<N, F>(nd);
-    let n = nd.usize_in(CAP, F);
-    let p = nd.usize_in(1, CAP - 1);
-    let c1 = nd.usize_in(0, CAP - 1);
-    q_resume_at::<N, F, CAP, MODE>(nd, &file, true, p, n, c1, false);
-}
-pub fn q0<N: Nd>(nd: &mut N) { q_compact::<N, 0>(nd) }
-pub fn q1<N: Nd>(nd: &mut N) { q_compact::<N, 1>(nd) }
-pub fn q2<N: Nd>(nd: &mut N) { q_compact::<N, 2>(nd) }
-pub fn q4<N: Nd>(nd: &mut N) { q_compact::<N, 4>(nd) }
-
 /// Q5..Q7: the pieces of the FASTQ resume path called one after the other through the hooks
 pub fn q_seq<N: Nd, const STEPS: usize>(nd: &mut N) {
     const F: usize = 7;
@@ -777,8 +217,6 @@ pub fn q5<N: Nd>(nd: &mut N) { q_seq::<N, 1>(nd) }
 pub fn q6<N: Nd>(nd: &mut N) { q_seq::<N, 2>(nd) }
 pub fn q7<N: Nd>(nd: &mut N) { q_seq::<N, 3>(nd) }
 harnesses! {
-    /// @meta props=X00 tier=pilot kind=K timeout=900 mem=16 unwind=9 unwindset="seq_io::fill_buf:5" bounds="pilot"
-    pilot_p2 => p2;
     /// @meta props=X00 tier=pilot kind=K timeout=900 mem=16 unwind=9 unwindset="_resume_incomplete_search:2;seq_io::fill_buf:5" bounds="pilot"
     pilot_p3 => p3;
     /// @meta props=X00 tier=pilot kind=K timeout=900 mem=16 unwind=9 unwindset="_resume_incomplete_search:2;seq_io::fill_buf:5" bounds="pilot"
@@ -792,38 +230,8 @@ harnesses! {
     /// @meta props=X00 tier=pilot kind=K timeout=900 mem=14 unwind=10 unwindset="seq_io::fill_buf:6" bounds="pilot"
     #[kani::stub(std::string::String::from_utf8_lossy, crate::src::stub_lossy_empty)]
     pilot_q5 => q5;
-    /// @meta props=X00 tier=pilot kind=K timeout=900 mem=14 unwind=10 unwindset="_resume_incomplete_search:2;seq_io::fill_buf:6" bounds="pilot"
-    #[kani::stub(std::string::String::from_utf8_lossy, crate::src::stub_lossy_empty)]
-    pilot_q4 => q4;
-    /// @meta props=X00 tier=pilot kind=K timeout=900 mem=14 unwind=10 unwindset="_resume_incomplete_search:2;seq_io::fill_buf:6" bounds="pilot"
-    #[kani::stub(std::string::String::from_utf8_lossy, crate::src::stub_lossy_empty)]
-    pilot_q2 => q2;
-    /// @meta props=X00 tier=pilot kind=K timeout=900 mem=14 unwind=10 unwindset="_resume_incomplete_search:2;seq_io::fill_buf:6" bounds="pilot"
-    #[kani::stub(std::string::String::from_utf8_lossy, crate::src::stub_lossy_empty)]
-    pilot_q1 => q1;
-    /// @meta props=X00 tier=pilot kind=K timeout=900 mem=14 unwind=10 unwindset="_resume_incomplete_search:2;seq_io::fill_buf:6" bounds="pilot"
-    #[kani::stub(std::string::String::from_utf8_lossy, crate::src::stub_lossy_empty)]
-    pilot_q0 => q0;
-    /// @meta props=X00 tier=pilot kind=K timeout=900 mem=16 unwind=9 unwindset="_resume_incomplete_search:2;seq_io::fill_buf:5" bounds="pilot"
-    pilot_p15 => p15;
     /// @meta props=X00 tier=pilot kind=K timeout=900 mem=16 unwind=9 unwindset="_resume_incomplete_search:2;seq_io::fill_buf:5" bounds="pilot"
     pilot_p14 => p14;
     /// @meta props=X00 tier=pilot kind=K timeout=900 mem=16 unwind=9 unwindset="_resume_incomplete_search:2;seq_io::fill_buf:5" bounds="pilot"
-    pilot_p13 => p13;
-    /// @meta props=X00 tier=pilot kind=K timeout=900 mem=16 unwind=9 unwindset="_resume_incomplete_search:2;seq_io::fill_buf:5" bounds="pilot"
-    pilot_p12 => p12;
-    /// @meta props=X00 tier=pilot kind=K timeout=900 mem=16 unwind=9 unwindset="_resume_incomplete_search:2;seq_io::fill_buf:5" bounds="pilot"
-    pilot_p11 => p11;
-    /// @meta props=X00 tier=pilot kind=K timeout=900 mem=16 unwind=9 unwindset="_resume_incomplete_search:2;seq_io::fill_buf:5" bounds="pilot"
-    pilot_p10 => p10;
-    /// @meta props=X00 tier=pilot kind=K timeout=900 mem=16 unwind=9 unwindset="_resume_incomplete_search:2;seq_io::fill_buf:5" bounds="pilot"
-    pilot_p9 => p9;
-    /// @meta props=X00 tier=pilot kind=K timeout=900 mem=16 unwind=9 unwindset="_resume_incomplete_search:2;seq_io::fill_buf:5" bounds="pilot"
-    pilot_p8 => p8;
-    /// @meta props=X00 tier=pilot kind=K timeout=900 mem=16 unwind=9 unwindset="_resume_incomplete_search:2;seq_io::fill_buf:5" bounds="pilot"
-    pilot_p7 => p7;
-    /// @meta props=X00 tier=pilot kind=K timeout=900 mem=16 unwind=9 unwindset="_resume_incomplete_search:2;seq_io::fill_buf:5" bounds="pilot"
     pilot_p6 => p6;
-    /// @meta props=X00 tier=pilot kind=K timeout=900 mem=16 unwind=9 unwindset="_resume_incomplete_search:2;seq_io::fill_buf:5" bounds="pilot"
-    pilot_p5 => p5;
 }
